@@ -60,4 +60,26 @@ CLAIMS = {
                 "not block, successive time.time() readings strictly increase. The worker side (worker_main) and "
                 "PynguinClient.run_pynguin are not yet under contract.",
     },
+    "C05": {
+        "category": "proof",
+        "text": "Unbounded proof that the tracer's enabled flag at the exit of temporarily_disable/temporarily_enable and of "
+                "every recorder callback (executed_*_predicate, executed_exception_match, executed_code_object, "
+                "track_line_visit, track_generic/memory_access/attribute_access/jump/call/return, _extract_arguments) equals "
+                "the flag at entry on normal AND on exceptional exit, for arbitrary values of the module under test (every "
+                "operation on them may raise anything), and that _early_return skips the recorder only while disabled.",
+        "note": "values of the module under test are opaque: every operation on them has an unknown result and may raise "
+                "(opaque_raise); distance helpers and _update_metrics are used through assumed contracts (may raise "
+                "anything / AssertionError); thread-locality of TracerLocalState is assumed; the executor-side hooks "
+                "(_before/_after_statement_execution) are not yet under contract.",
+    },
+    "C34": {
+        "category": "other",
+        "text": "Bounded stand-in only (not a proof): the real OrderedSet/FrozenOrderedSet are checked against the reference "
+                "model 'duplicate-free list' for every public operation over an exhaustive small scope (all ordered sets "
+                "over {0,1,2}, all argument sequences of length <= 2 over {0..3}, seven kinds of iterable incl. one-shot "
+                "iterators and generators, self-aliasing, indices -len-1..len, operation histories of length 2).",
+        "technique": "bounded contract check, exhaustive small scope (stand-in; the methods use itertools/varargs/"
+                     "self.__class__, outside the verifier's subset)",
+        "note": "no unbounded claim; the reference model in contracts/c34.py is trusted; elements are small ints only.",
+    },
 }
